@@ -474,6 +474,43 @@ func evaluate(p *Prog, pd *PropDef, encs []*Enc, lists *CheckLists, tier string,
 			undecQuota[siteName(le.name)]++
 		}
 	}
+	account := func(ob *Obligation) {
+		if k, ok := lists.known[pd.ID+" "+ob.Name]; ok {
+			if ob.Discharged() {
+				r.knownGone = append(r.knownGone, ob.Name)
+				r.claimed = append(r.claimed, ob)
+				r.discharged++
+			} else {
+				r.known = append(r.known, ob)
+				r.lines = append(r.lines, fmt.Sprintf("KNOWN-FINDING: property=%s %s %s", pd.ID, ob.Name, k.note))
+			}
+			return
+		}
+		if _, ok := lists.undecided[ob.Name]; ok && !ob.Discharged() {
+			r.undecided = append(r.undecided, ob)
+			return
+		}
+		if !ob.Discharged() {
+			sn := siteName(ob.Name)
+			if q := knownQuota[sn]; len(q) > 0 {
+				knownQuota[sn] = q[1:]
+				r.known = append(r.known, ob)
+				r.lines = append(r.lines, fmt.Sprintf("KNOWN-FINDING: property=%s %s %s (listed as %s; the text of the line changed)", pd.ID, ob.Name, q[0].note, q[0].name))
+				return
+			}
+			if undecQuota[sn] > 0 {
+				undecQuota[sn]--
+				r.undecided = append(r.undecided, ob)
+				return
+			}
+		}
+		r.claimed = append(r.claimed, ob)
+		if ob.Discharged() {
+			r.discharged++
+		} else {
+			r.violations = append(r.violations, ob)
+		}
+	}
 	for _, e := range encs {
 		if e.failed != "" {
 			// an encoder failure in a function that the property depends on is fail-closed
@@ -498,41 +535,7 @@ func evaluate(p *Prog, pd *PropDef, encs []*Enc, lists *CheckLists, tier string,
 				}
 				continue
 			}
-			if k, ok := lists.known[pd.ID+" "+ob.Name]; ok {
-				if ob.Discharged() {
-					r.knownGone = append(r.knownGone, ob.Name)
-					r.claimed = append(r.claimed, ob)
-					r.discharged++
-				} else {
-					r.known = append(r.known, ob)
-					r.lines = append(r.lines, fmt.Sprintf("KNOWN-FINDING: property=%s %s %s", pd.ID, ob.Name, k.note))
-				}
-				continue
-			}
-			if _, ok := lists.undecided[ob.Name]; ok && !ob.Discharged() {
-				r.undecided = append(r.undecided, ob)
-				continue
-			}
-			if !ob.Discharged() {
-				sn := siteName(ob.Name)
-				if q := knownQuota[sn]; len(q) > 0 {
-					knownQuota[sn] = q[1:]
-					r.known = append(r.known, ob)
-					r.lines = append(r.lines, fmt.Sprintf("KNOWN-FINDING: property=%s %s %s (listed as %s; the text of the line changed)", pd.ID, ob.Name, q[0].note, q[0].name))
-					continue
-				}
-				if undecQuota[sn] > 0 {
-					undecQuota[sn]--
-					r.undecided = append(r.undecided, ob)
-					continue
-				}
-			}
-			r.claimed = append(r.claimed, ob)
-			if ob.Discharged() {
-				r.discharged++
-			} else {
-				r.violations = append(r.violations, ob)
-			}
+			account(ob)
 		}
 	}
 	// static side of the region argument (C04/C05): per-execution types are not reachable from shared memory
@@ -546,6 +549,11 @@ func evaluate(p *Prog, pd *PropDef, encs []*Enc, lists *CheckLists, tier string,
 				r.violations = append(r.violations, ob)
 			}
 		}
+	}
+	// static side of termination: recursion that no measure bounds (declared with reentry)
+	for _, ob := range reentryObligations(p, pd.ID) {
+		r.generated++
+		account(ob)
 	}
 	if len(stats.Disagree) > 0 {
 		r.toolError = "solver disagreement on: " + strings.Join(stats.Disagree, ", ")
